@@ -1065,6 +1065,13 @@ def digests_of(lst):
     return out
 
 
+def safe_digests(lst):
+    try:
+        return digests_of(lst)
+    except Exception as e:
+        return e
+
+
 def construct(path, how, shared=None):
     """the constructor as a caller would use it: 'default' passes no skip_tables at all, 'shared' passes one list object
     that the caller re-uses for several readers"""
@@ -1078,11 +1085,17 @@ def construct(path, how, shared=None):
 
 
 def job_digest(job):
-    """one file in a process of its own: table names and a digest of every table at every result time"""
+    """one file in a process of its own: table names and a digest of every table at every result time.  An exception of
+    the real reader (open, or moving to a result time) is an answer, not a failure of the machinery: `raises`"""
     path = listing_base() / job['rel']
-    lst = open_listing(path, job.get('skip') or [])
-    out = dict(rel=job['rel'], skip=job.get('skip') or [], names=list(lst.table_names), digests=digests_of(lst))
-    lst.close()
+    out = dict(rel=job['rel'], skip=job.get('skip') or [], names=[], digests=[])
+    try:
+        lst = open_listing(path, job.get('skip') or [])
+        out['names'] = list(lst.table_names)
+        out['digests'] = digests_of(lst)
+        lst.close()
+    except Exception as e:
+        out['raises'] = '%s: %s' % (type(e).__name__, str(e)[:150])
     return out
 
 
@@ -1116,7 +1129,10 @@ def job_shared(job, progress):
 
     def check(rel, skip, names, got, phase):
         st['shared-readers-compared'] += 1
-        d = diff_digests(base[(rel, tuple(skip))], names, got)
+        if isinstance(got, Exception):
+            d = 'raises %s: %s' % (type(got).__name__, str(got)[:150])
+        else:
+            d = diff_digests(base[(rel, tuple(skip))], names, got)
         if d:
             out['violations'].append(dict(key='instances-not-independent:%s' % rel.split('/')[0],
                                           what='%s opened in a process shared with other readers (%s): %s' % (rel, phase, d),
@@ -1133,16 +1149,16 @@ def job_shared(job, progress):
         while first.next():
             pass
         first.first()
-        check(STEPPED_FIRST, [], list(first.table_names), digests_of(first), 'default arguments, stepped through all its result times')
+        check(STEPPED_FIRST, [], list(first.table_names), safe_digests(first), 'default arguments, stepped through all its result times')
     progress({'phase': 3})
     for rel, lst in early:
-        check(rel, [], list(lst.table_names), digests_of(lst), 'default arguments, opened before %s was stepped, then moved' % STEPPED_FIRST)
+        check(rel, [], list(lst.table_names), safe_digests(lst), 'default arguments, opened before %s was stepped, then moved' % STEPPED_FIRST)
     progress({'phase': 4})
     later = []
     for rel in files:
         lst = construct(listing_base() / rel, 'default')
         later.append(lst)
-        check(rel, [], list(lst.table_names), digests_of(lst), 'default arguments, opened after %s was stepped' % STEPPED_FIRST)
+        check(rel, [], list(lst.table_names), safe_digests(lst), 'default arguments, opened after %s was stepped' % STEPPED_FIRST)
     progress({'phase': 5})
     shared = ['connection']
     order = ([STEPPED_FIRST] if STEPPED_FIRST in files else []) + [r for r in files if r != STEPPED_FIRST and (r, ('connection',)) in base]
@@ -1155,7 +1171,7 @@ def job_shared(job, progress):
         if rel == STEPPED_FIRST:
             while lst.next():
                 pass
-        check(rel, ['connection'], list(lst.table_names), digests_of(lst), 'one skip list object [\'connection\'] passed to several readers')
+        check(rel, ['connection'], list(lst.table_names), safe_digests(lst), 'one skip list object [\'connection\'] passed to several readers')
     if shared != ['connection']:
         out['violations'].append(dict(key='caller-list-modified', what='the skip_tables list a caller passed was changed to %r' % (shared,),
                                       case=dict(shared_process=True, phase='shared list')))
@@ -1176,6 +1192,13 @@ def shared_process_facet(ctx, res):
             jobs.append(dict(rel=rel, skip=['connection']))
     baseline = run_jobs('job_digest', jobs, timeout=ctx.n(120, 300), fresh=True)
     baseline = [b for b in baseline if not isinstance(b, Timeout)]
+    for b in baseline:
+        if b.get('raises'):
+            res.violations.append(dict(key='shipped-file-raises:%s' % b['rel'].split('/')[0],
+                                       what='%s with skip_tables=%r, every result time in turn: the reader raises %s' % (b['rel'], b['skip'], b['raises']),
+                                       case=dict(file=b['rel'], variant={'kind': 'orig'}, skip=b['skip'])))
+    if any(b.get('raises') for b in baseline):
+        return
     r = run_jobs('job_shared', [dict(baseline=baseline)], timeout=ctx.n(120, 300), nworkers=1, fresh=True)[0]
     f = res.facet('shared_process')
     if isinstance(r, Timeout):
